@@ -360,6 +360,12 @@ def rule_IDX(ctx):
                             sinks |= {id(y) for y in ast.walk(kw.value)}
                 if isinstance(x, ast.Assign) and len(x.targets) == 1 and isinstance(x.targets[0], ast.Name) and x.targets[0].id == 'start':
                     sinks |= {id(y) for y in ast.walk(x.value)}
+            # a product first given a name: `offset = width * i` ... `data[offset:offset + width]`
+            for _ in range(2):
+                for x in own_walk(f.node):
+                    if isinstance(x, ast.Assign) and len(x.targets) == 1 and isinstance(x.targets[0], ast.Name) and any(
+                            isinstance(y, ast.Name) and y.id == x.targets[0].id and isinstance(y.ctx, ast.Load) and id(y) in sinks for y in own_walk(f.node)):
+                        sinks |= {id(y) for y in ast.walk(x.value)}
             mults = [x for x in mults if id(x) in sinks]
             if not mults:
                 continue
